@@ -186,6 +186,7 @@ PROPS["C12"] = {
         rapid("sdpfrag", "sdpfrag", "TestVerif_C12_SdpFrag", 3000, 20000),
         rapid("header-parsers", "webserver", "TestVerif_C12_HeaderParsers", 5000, 40000),
         rapid("keys-and-tokens", "token", "TestVerif_C12_KeysAndTokens", 6000, 50000),
+        rapid("rtp-sequences", "rtpconn", "TestVerif_C12_RtpSequences", 1200, 10000),
         rapid("signalling-fuzz", "rtpconn", "TestVerif_C12_SignallingFuzz", 600, 5000, quick_shards=4),
         rapid("http-surface", "webserver", "TestVerif_C12_HttpSurface", 3000, 20000),
     ],
